@@ -86,3 +86,8 @@ CORPUS += [
       "        try:\n            while True:\n                self._queue.get_nowait()\n        except asyncio.QueueEmpty:\n            pass\n        self._buffer.clear()\n"),
     M("disconnect-resets-buffer", L, "        _LOGGER.debug(\"Disconnecting from %s.\", self.peer)\n", "        _LOGGER.debug(\"Disconnecting from %s.\", self.peer)\n        self._buffer = bytearray(0)\n"),
 ]
+# round 8 (C04.d): the receive queue is unbounded
+CORPUS += [
+    M("queue-bounded", L, "        self._queue = asyncio.Queue()\n", "        self._queue = asyncio.Queue(maxsize=4)\n"),
+    M("n-queue-maxsize-zero", L, "        self._queue = asyncio.Queue()\n", "        self._queue = asyncio.Queue(maxsize=0)\n", "S"),
+]
